@@ -8,6 +8,9 @@ RULE = ("DENC <sid> <schema> <def> <value>: a value of a type definition drawn f
         "(generated crate harness-derive) and by the Coq interpreter gen_encode; S= is ser(prefer(doc_tree)) from Spec/DeriveDoc.v. All Some/None "
         "combinations of the optional fields (up to 2^10 per definition) x boundary leaf values. DMETA: the same definition with shuffled "
         "declaration order, fresh names, n<->b and other attribute spellings must give identical bytes (O=) and the model of the twin gives S=. "
+        "Every definition is additionally WRITTEN in a spelling drawn from the seed (model-neutral, the schema text does not record it): Option / core::option::Option / "
+        "std::option::Option, #[n(i)] / #[cbor(n(i))] (b alike; n or b on variants), the #[cbor(..)] items of a level merged, split and reordered as far as attrs.rs accepts, "
+        "with = \"m\" / encode_with + decode_with + cbor_len (+ is_nil + nil), pass-through encode_with / decode_with / cbor_len / with on codec-less fields. "
         "Non-trivial: more than 2 bytes are produced.")
 ASSUMPTIONS = ["field types are drawn from a pool of ~55 leaf types plus references, Option and Vec of other definitions; nesting depth <= 4 definitions",
                "index literals above 2^31-1 do not compile with CborLen/indefinite arrays and are outside the grammar",
